@@ -1738,6 +1738,9 @@ func (sa *Application) tryNode(node *Node, ask *Allocation) (*AllocationResult, 
 				zap.Error(err))
 		}
 		// all is OK, last update for the app
+		// link the allocation to the node now: a release of the allocation, or a removal of the application, that is
+		// processed before the partition has finalised the result must be able to find the node to clean up
+		ask.SetNodeID(node.NodeID)
 		result := newAllocatedAllocationResult(node.NodeID, ask)
 		sa.addAllocationInternal(result.ResultType, ask)
 		return result, nil
